@@ -108,4 +108,13 @@ theorem up_bound {f : Fmt} (hf : WF f) (hsz : L f + 2 ≤ 200000) {b : Nat} (hb0
     _ = hi * (an / ad) := by field_simp
     _ < 2 ^ (bitlen hi : ℤ) * (an / ad) := by gcongr
 
+theorem decFrac_Q (D : ℕ) (E : ℤ) :
+    ((decFrac D E).1 : ℚ) / ((decFrac D E).2 : ℚ) = (D : ℚ) * (10 : ℚ) ^ E := by
+  rw [decFrac_eq]
+  dsimp only
+  rw [← tenFrac_Q, Nat.cast_mul, mul_div_assoc]
+
+theorem decFrac_den_pos (D : ℕ) (E : ℤ) : 0 < (decFrac D E).2 := by
+  rw [decFrac_eq]; exact (tenFrac_pos E).2
+
 end LexVerif.Proof.RoundNE
